@@ -54,11 +54,12 @@ func gen(tier string, seed int64) []hx.Scenario {
 	}
 	for _, g := range []string{"G1", "G2"} {
 		for _, l := range []int{0, 1, 16, 31, 32, 33, 64} {
-			out = append(out, hx.Scenario{Name: "ibe-cca", Cfg: fmt.Sprintf("on=%s len=%d", g, l), Pairing: true, Run: func(x *hx.Ctx) { ibeCCA(x, g, l) }})
+			out = append(out, hx.Scenario{Name: "ibe-cca", Cfg: fmt.Sprintf("on=%s len=%d", g, l), Pairing: true, Run: func(x *hx.Ctx) { detRand(x, func() { ibeCCA(x, g, l) }) }})
 		}
+		out = append(out, hx.Scenario{Name: "ibe-cca-short-sigma", Cfg: fmt.Sprintf("on=%s len=1", g), Pairing: true, Run: func(x *hx.Ctx) { detRand(x, func() { ibeShortSigma(x, g, 1) }) }})
 	}
 	for _, l := range []int{0, 1, 16, 32, 33, 48, 80, 65535, 65536} {
-		out = append(out, hx.Scenario{Name: "ibe-cpa", Cfg: fmt.Sprintf("len=%d", l), Pairing: true, Run: func(x *hx.Ctx) { ibeCPA(x, l) }})
+		out = append(out, hx.Scenario{Name: "ibe-cpa", Cfg: fmt.Sprintf("len=%d", l), Pairing: true, Run: func(x *hx.Ctx) { detRand(x, func() { ibeCPA(x, l) }) }})
 	}
 	return out
 }
@@ -275,7 +276,7 @@ func ibeCCA(x *hx.Ctx, on string, l int) {
 	x.NoErr("Decrypt", err)
 	x.Require("round trip", bytes.Equal(pt, msg))
 	_, err = dec(p, otherPrivate, c)
-	if l > 0 { // the empty message has an empty pad: nothing depends on the key
+	if l >= minSigma { // shorter messages: sigma has only 8*len(msg) bits, see ibeShortSigma (the empty message has an empty pad: nothing depends on the key)
 		x.Err("key of another identity", err)
 	}
 	c2 := &ibe.Ciphertext{U: grp.Point().Add(c.U, grp.Point().Base()), V: c.V, W: c.W}
@@ -301,10 +302,47 @@ func ibeCCA(x *hx.Ctx, on string, l int) {
 	_, err = dec(p, private, &ibe.Ciphertext{U: c.U, V: long, W: long})
 	x.Err("over-long V/W refused", err)
 	cB, _ := enc(p, master, id, msg)
-	if l > 0 {
+	if l >= minSigma { // two encryptions of a shorter message draw the same sigma (hence are the same ciphertext) with probability 2^-8l
 		_, err = dec(p, private, &ibe.Ciphertext{U: c.U, V: cB.V, W: cB.W})
 		x.Err("components of two ciphertexts mixed", err)
 	}
+}
+
+// minSigma: below this message length the outcome of the two sigma-dependent rejections of ibeCCA is decided by the
+// 8*len(msg) random bits of sigma, not by the scheme; those lengths are the subject of ibeShortSigma.
+const minSigma = 16
+
+// detRand makes encrypt/ibe's direct use of crypto/rand a function of the seed and the scenario (and of which twin runs)
+func detRand(x *hx.Ctx, f func()) {
+	hx.DetRand(fmt.Sprintf("c16|%s|%s|%d|%v", x.Scenario, x.Cfg, x.Seed, x.Symbolic), f)
+}
+
+// ibeShortSigma: the CCA scheme draws sigma with the length of the message, so for an l-byte message the re-encryption
+// check U = H3(sigma', msg')*P accepts as soon as the l pad bytes derived from a WRONG key coincide with those of the
+// right key: one ciphertext in 2^(8l). The acceptance condition is exact (sigma' = sigma <=> accepted, by the valid
+// queries of the symbolic run); the witness is searched among the first 8192 encryptions under the deterministic
+// crypto/rand of this scenario and replayed on the real suite.
+func ibeShortSigma(x *hx.Ctx, on string, l int) {
+	p := x.P
+	id := []byte("identity-42")
+	master, _, otherPrivate := ibeSetup(x, on, id)
+	enc, dec := ibe.EncryptCCAonG1, ibe.DecryptCCAonG1
+	if on == "G2" {
+		enc, dec = ibe.EncryptCCAonG2, ibe.DecryptCCAonG2
+	}
+	msg := msgOf(l)
+	accepted, same := -1, false
+	for i := 0; i < 8192 && accepted < 0; i++ {
+		c, err := enc(p, master, id, msg)
+		if err != nil {
+			x.NoErr("Encrypt", err)
+			return
+		}
+		if pt, err := dec(p, otherPrivate, c); err == nil {
+			accepted, same = i, bytes.Equal(pt, msg)
+		}
+	}
+	x.Require(fmt.Sprintf("every ciphertext of a %d-byte message is refused under the key of another identity", l), accepted < 0, "accepted at encryption", accepted, "plaintext recovered", same)
 }
 
 func ibeCPA(x *hx.Ctx, l int) {
